@@ -263,6 +263,11 @@ def vol_apply(it, v, x):
                 _invalid(it, "value out of range")
             return x
         x2 = ops.specialize(it, x)
+        if isinstance(x2, (int, float)) and not isinstance(x2, bool):
+            # concrete number: voluptuous' own tests (`not v >= min` rejects NaN)
+            if (v.min is not None and not x2 >= v.min) or (v.max is not None and not x2 <= v.max):
+                _invalid(it, "value out of range")
+            return x2
         if x2 is None or isinstance(x2, (str,)) or (isinstance(x2, SV) and x2.kind == "str"):
             _invalid(it, "invalid value or type (must have a partial ordering)")
         kind, t = lift(x2)
